@@ -145,6 +145,7 @@ def run(fx, it, writer, matrix, size, args=(), kw=None, typed=None, extra=None):
     import ast
     from .. import ev
     cur = FuncVal(fn, genv, it)
+    cur.decorators_applied = True
     # the decorators are applied as the module applies them, innermost first: `colorful` is modelled (colour keywords -> colour map),
     # a wrapper-returning decorator of the module itself is interpreted, anything else is outside what this harness can read
     for d in reversed(fn.decorator_list):
